@@ -50,8 +50,142 @@ KINDS = ['file', 'file', 'file', 'mapping', 'demo:mapping:file',
 SHAPES = ['enospc', 'eio', 'short', 'persist']
 
 
+def gen_adapter(r, tier):
+    """The storage a Connection commits through (the per-connection MVCC
+    adapter over the real storage): calls with a transaction that is not
+    the one in flight, made between the phases of a commit, are rejected
+    and the commit goes on as if nothing had happened."""
+    calls = [r.choice(('tpc_finish', 'tpc_vote', 'tpc_abort', 'store',
+                       'tpc_finish', 'checkCurrentSerialInTransaction'))
+             for _ in range(r.randint(1, 3))]
+    return {'arm': 'adapter', 'kind': r.choice(('file', 'mapping')),
+            'calls': calls, 'when': r.choice(('commit', 'tpc_vote')),
+            'first': r.random() < 0.7, 'nobj': r.randint(1, 3),
+            'bufsize': 8192, 'tier': tier, 'prefix': []}
+
+
+def run_adapter(case):
+    from ZODB.Connection import TransactionMetaData
+    from ZODB.POSException import StorageTransactionError
+    from ZODB.utils import z64
+    from .. import dbh
+    from .. import objs
+    sim = ctx.activate(ctx.Sim(case['seed'], bufsize=case['bufsize']))
+    viol = []
+    trace = []
+    db = dbh.make_db(sim, case['kind'])
+    try:
+        A = dbh.Client(db, 'A')
+        c = A.open()
+        for i in range(case['nobj']):
+            c.root()['c%d' % i] = objs.Cell(i)
+        A.commit()
+        want = {}
+        for i in range(case['nobj']):
+            c.root()['c%d' % i].token = want['c%d' % i] = 100 + i
+        foreign = TransactionMetaData(b'', b'foreign', {})
+        ad = c._storage
+
+        class Meddler:
+            transaction_manager = None
+
+            def sortKey(self):
+                return '!' if case['first'] else '~~~~'
+
+            def meddle(self):
+                for name in case['calls']:
+                    args = {'tpc_finish': (foreign,),
+                            'tpc_vote': (foreign,),
+                            'tpc_abort': (foreign,),
+                            'store': (z64, z64, b'x', '', foreign),
+                            'checkCurrentSerialInTransaction':
+                            (z64, z64, foreign)}[name]
+                    try:
+                        getattr(ad, name)(*args)
+                        got = 'accepted'
+                    except StorageTransactionError:
+                        got = 'refused'
+                    except Exception as e:      # noqa: B902
+                        got = type(e).__name__
+                    trace.append('%s:%s' % (name, got))
+                    if got not in ('refused',) and not (
+                            name == 'tpc_abort' and got == 'accepted'):
+                        viol.append(('foreign-call-outcome', '%s with a '
+                                     'transaction that is not the one in '
+                                     'flight: %s' % (name, got)))
+
+            def abort(self, txn):
+                pass
+
+            def tpc_begin(self, txn):
+                pass
+
+            def commit(self, txn):
+                if case['when'] == 'commit':
+                    self.meddle()
+
+            def tpc_vote(self, txn):
+                if case['when'] == 'tpc_vote':
+                    self.meddle()
+
+            def tpc_finish(self, txn):
+                pass
+
+            def tpc_abort(self, txn):
+                pass
+        A.tm.get().join(Meddler())
+        try:
+            A.commit()
+        except Exception as e:      # noqa: B902
+            viol.append(('foreign-call-has-effect', 'after %r between the '
+                         'phases of a commit (%s, %s the connection) the '
+                         'commit raises %s: %s'
+                         % (trace, case['when'],
+                            'before' if case['first'] else 'after',
+                            type(e).__name__, str(e)[:70])))
+            A.abort()
+            want = {'c%d' % i: i for i in range(case['nobj'])}
+        B = dbh.Client(db, 'B')
+        cb = B.open()
+        got = {n: cb.root()[n].token for n in want}
+        if got != want and not viol:
+            viol.append(('foreign-call-has-effect', 'after %r a fresh '
+                         'connection reads %r, expected %r'
+                         % (trace, got, want)))
+        # the next transaction begins and commits normally
+        c.root()['c0'].token = 7
+        try:
+            A.commit()
+        except Exception as e:      # noqa: B902
+            viol.append(('next-transaction-fails', '%s: %s'
+                         % (type(e).__name__, str(e)[:70])))
+            A.abort()
+    except Exception as e:      # noqa: B902
+        import traceback
+        viol.append(('program-raises', '%s: %s | %s' % (
+            type(e).__name__, str(e)[:80],
+            ' / '.join(x.strip()[:70] for x in
+                       traceback.format_exc().strip().splitlines()[-5:-1]))))
+    finally:
+        try:
+            db.close()
+        except Exception:       # noqa: B902
+            pass
+    return {'violations': [{'oracle': o, 'detail': x} for o, x in viol[:20]],
+            'stats': {'sim_time_s': sim.clock.elapsed(), 'arm:adapter': 1},
+            'keys': ['adapter|%s|%s|%s|%s' % (case['kind'], case['when'],
+                                              case['first'],
+                                              ','.join(trace))],
+            'evals': 1,
+            'sample': {'arm': 'adapter', 'calls': case['calls'],
+                       'trace': trace},
+            'digest': sim.digest(trace, viol)}
+
+
 def gen(seed, tier):
     r = random.Random(seed)
+    if r.random() < 0.1:
+        return gen_adapter(r, tier)
     kind = r.choice(KINDS)
     prefix = G.gen_history(ctx.subseed(seed, 'prefix'),
                            'demo' if kind.startswith('demo') else kind,
@@ -490,6 +624,8 @@ def variants_for(case, raw_ops, finish_ops, nstore, tier):
 
 
 def run(case):
+    if case.get('arm') == 'adapter':
+        return run_adapter(case)
     tier = case.get('tier', 'quick')
     viol = []
     stats = {}
